@@ -1,13 +1,28 @@
 import GateryModel.C01.Spec
+import GateryModel.C01.Rules2
 /-!
-# C01 — property theorems (first layer: the relation `F` itself)
+# C01 — property theorems
 
-`F` is the executable form of the property statement that the driver evaluates on the implementation's traces.
-The theorems here pin down that `F` says what the statement says; the per-rewrite soundness theorems (layer A) and the
-verified equivalence checker (layer B) of DESIGN.md §5/C01 are added in `C01/Rewrite.lean` / `C01/Equiv.lean`.
+*For every design and every input sequence, the post-processed circuit shows at its I/O pins the same values as the circuit as
+constructed: no bit that both simulations define may differ, and whenever the unprocessed run is free of undefined values the
+processed run is bit-identical and fully defined.*
+
+Three layers (DESIGN.md §5/C01, as built):
+* `F` (C01/Spec.lean) — the executable trace relation evaluated by the driver on the implementation's pin traces of generated designs,
+  before post-processing, after every pass (hook) and at the end, for both post-processors. The first theorems pin down what `F` says.
+* Congruence (C01/Congr.lean) — for every netlist of modelled nodes (`Gatery.Nodes`, tied to the simulator by C03/C08's correspondence)
+  and every environment: a locally sound replacement of one node preserves `F` on *all* node values; any finite sequence of such
+  replacements preserves identity on defined runs and compatibility whenever some concretisation of the stimulus is defined.
+* Rules (C01/Rules*.lean) — value-level soundness, for all four-state values and widths, of the rewrites performed by
+  `cullMuxConditionNegations`, `mergeMuxes` (given the C14 verdict), `removeConstSelectMuxes`, `removeNoOps` (identity rewire),
+  `removeIrrelevantComparisons`, `propagateConstants`; `cullMuxConditionNegations` is lifted to a netlist rewrite in context.
+Passes without a rule theorem (removeIrrelevantMuxes, mergeBinaryMuxChain, foldRegisterMuxEnableLoops, retiming, memory detection,
+tech mapping, export preparation) and all sequential behaviour are covered by the trace check only.
 -/
 namespace Gatery.C01.Props
-open Gatery.C01
+open Gatery.C01 Gatery.Nodes
+
+/-! ### the trace relation -/
 
 theorem bitCompat_iff (a b : Char) : bitCompat a b = true ↔ (a = 'x' ∨ b = 'x' ∨ a = b) := by
   simp [bitCompat, or_assoc]
@@ -17,26 +32,96 @@ theorem F_defined_identical (a b : Trace) (h : F a b true = true) : b = a := by
   simp only [F, Bool.not_true, Bool.false_or, Bool.and_eq_true, beq_iff_eq] at h
   exact h.2.symm
 
-/-- `F` always implies that no bit defined on both sides differs (clause 1), stated per cycle, pin and bit position. -/
+/-- `F` always implies that no bit defined on both sides differs. -/
 theorem F_compat (a b : Trace) (adef : Bool) (h : F a b adef = true) : traceCompat a b = true := by
   simp only [F, Bool.and_eq_true] at h
   exact h.1
 
-theorem valueCompat_refl (v : Value) : valueCompat v v = true := by
-  unfold valueCompat
-  simp only [beq_self_eq_true, Bool.true_and, List.all_eq_true]
-  intro x hx
-  induction v with
-  | nil => simp at hx
-  | cons c cs ih =>
-    simp only [List.zipWith_cons_cons, List.mem_cons] at hx
-    rcases hx with rfl | hx
-    · simp [bitCompat]
-    · exact ih hx
-
-/-- an unchanged circuit satisfies the relation (non-vacuity of `F`: it is satisfiable, also with undefined bits) -/
 example : F [[['1','x'], ['0']], [['0','0'], ['x']]] [[['1','0'], ['0']], [['0','0'], ['1']]] false = true := by decide
 example : F [[['1','0']]] [[['1','1']]] false = false := by decide
 example : F [[['1','0']]] [[['1','x']]] true = false := by decide
+
+/-! ### congruence: from one node to the whole netlist, from one rewrite to any number -/
+
+/-- One locally sound node replacement anywhere in any netlist preserves the property on every node value, for every stimulus. -/
+theorem one_rewrite_preserves {ok : Env → Prop} (pre post : List NetNode) (n n' : NetNode) (h : LocalSound ok pre n n') (env : Env) (hok : ok env) :
+    ValsCompat (evalNet env (pre ++ n :: post)) (evalNet env (pre ++ n' :: post)) ∧
+    (ValsDef (evalNet env (pre ++ n :: post)) → evalNet env (pre ++ n' :: post) = evalNet env (pre ++ n :: post)) :=
+  replace_sound pre post n n' h env hok
+
+/-- Any number of rewrites: a run free of undefined values stays bit-identical. -/
+theorem passes_preserve_defined {ok : Env → Prop} (a b : List NetNode) (h : Rewrites ok a b) (env : Env) (hok : ok env)
+    (hd : ValsDef (evalNet env a)) : evalNet env b = evalNet env a := rewrites_defined a b h env hok hd
+
+/-- Any number of rewrites, partially undefined stimulus: no defined bit ever contradicts the original, provided the design has
+    a defined run for some concretisation of that stimulus (no intrinsic undefinedness such as division by zero). -/
+theorem passes_preserve_compat {ok : Env → Prop} (a b : List NetNode) (h : Rewrites ok a b) (env env' : Env) (he : EnvCompat env env')
+    (hok' : ok env') (hd : ValsDef (evalNet env' a)) : ValsCompat (evalNet env a) (evalNet env b) := rewrites_compat a b h env env' he hok' hd
+
+/-! ### rules -/
+
+/-- `cullMuxConditionNegations`: mux(¬c; a, b) ≡ mux(c; b, a), also for an undefined condition and unconnected data inputs. -/
+theorem cullMuxConditionNegations_rule (w : Nat) (b : B4) (A B : Option BV4) :
+    RuleSound (evalMux w [some (notVal (some [b])), A, B]) (evalMux w [some [b], B, A]) := negMux_sound w b A B
+
+/-- the same as a netlist rewrite, in every context -/
+theorem cullMuxConditionNegations_netlist {ok : Env → Prop} (pre : List NetNode) (j c a b w : Nat) (ty tyn : CType)
+    (hj : pre[j]? = some ⟨.node (.logic .NOT) tyn, 1, [some c]⟩) (hc : c < j)
+    (hbool : ∀ env, ok env → ∃ bit, (evalNet env pre).getD c none = some [bit]) :
+    LocalSound ok pre ⟨.node .mux ty, w, [some j, some a, some b]⟩ ⟨.node .mux ty, w, [some c, some b, some a]⟩ :=
+  negMux_localSound pre j c a b w ty tyn hj hc hbool
+
+/-- `mergeMuxes`, inner mux in the selected-by-1 branch: mux(c; X, mux(c'; P, Q)) → mux(c; X, Q) for conditions that never contradict
+    (what C14's `isEqualTo` + C08 give): never a contradicting bit; exact when both conditions are defined. -/
+theorem mergeMuxes_rule_1 (w : Nat) (c c' : B4) (hc : B4.compat c c') (X P Q : BV4) (hP : P.length = w) (hQ : Q.length = w) :
+    BV4.compat (evalMux w [some [c], some X, some (evalMux w [some [c'], some P, some Q])]) (evalMux w [some [c], some X, some Q]) ∧
+    (c.isDef = true → c'.isDef = true →
+      evalMux w [some [c], some X, some Q] = evalMux w [some [c], some X, some (evalMux w [some [c'], some P, some Q])]) :=
+  mergeMux_sound_1 w c c' hc X P Q hP hQ
+
+/-- `mergeMuxes`, inner mux in the selected-by-0 branch. -/
+theorem mergeMuxes_rule_0 (w : Nat) (c c' : B4) (hc : B4.compat c c') (Y P Q : BV4) (hP : P.length = w) (hQ : Q.length = w) :
+    BV4.compat (evalMux w [some [c], some (evalMux w [some [c'], some P, some Q]), some Y]) (evalMux w [some [c], some P, some Y]) ∧
+    (c.isDef = true → c'.isDef = true →
+      evalMux w [some [c], some P, some Y] = evalMux w [some [c], some (evalMux w [some [c'], some P, some Q]), some Y]) :=
+  mergeMux_sound_0 w c c' hc Y P Q hP hQ
+
+/-- `removeConstSelectMuxes`: a defined in-range constant selector makes the mux its selected input (any number of inputs, any width). -/
+theorem removeConstSelectMuxes_rule (w : Nat) (sel : BV4) (data : Ins) (hd : sel.allDef = true) (hr : sel.toNat < data.length) :
+    evalMux w (some sel :: data) = copyIn w (data.getD sel.toNat none) := constSelectMux_sound w sel data hd hr
+
+/-- `removeNoOps` / `Node_Rewire::isNoOp`: ranges tiling input 0 from offset 0 over its whole width are the identity. -/
+theorem removeNoOps_rewire_rule (rs : List Range) (v : BV4) (h : tiles rs 0 = true) (hw : (rs.map (·.subwidth)).sum = v.length) :
+    evalRewire rs [some v] = v := noopRewire_sound rs v h hw
+
+/-- `removeIrrelevantComparisons`: a BOOL compared with a defined constant on either side is the signal or its inverse. -/
+theorem removeIrrelevantComparisons_rule (op : CmpOp) (hop : op = .EQ ∨ op = .NEQ) (a : B4) (k : Bool) :
+    evalCompare op [some [a], some [B4.ofBool k]] = [if (k != (op == .EQ)) then notBit a else a] ∧
+    evalCompare op [some [B4.ofBool k], some [a]] = [if (k != (op == .EQ)) then notBit a else a] ∧
+    evalLogic .NOT 1 [some [a]] = [notBit a] :=
+  ⟨compare_const_right op hop a k, compare_const_left op hop a k, not_is_notBit a⟩
+
+/-- `propagateConstants`: folding a node whose output is fully defined with all non-constant inputs undefined. -/
+theorem propagateConstants_rule (k : NodeKind) (w : Nat) (insU ins : Ins) (h : InsCompat insU ins)
+    (hd : (evalNode k w insU).allDef = true) : RuleSound (evalNode k w ins) (evalNode k w insU) := constFold_sound k w insU ins h hd
+
+/-! ### non-vacuity: a concrete netlist, a concrete rewrite sequence -/
+
+/-- in0, in1, in2 ; 3: NOT in0 ; 4: mux(3; in1, in2) -/
+def exNet : List NetNode :=
+  [⟨.input 0, 1, []⟩, ⟨.input 1, 4, []⟩, ⟨.input 2, 4, []⟩, ⟨.node (.logic .NOT) .bool, 1, [some 0]⟩, ⟨.node .mux .bitvec, 4, [some 3, some 1, some 2]⟩]
+
+/-- admissible stimulus for `exNet`: pin 0 carries one bit -/
+def exOk (env : Env) : Prop := ∃ b, env.getD 0 (BV4.undef 1) = [b]
+
+example : Rewrites exOk exNet
+    [⟨.input 0, 1, []⟩, ⟨.input 1, 4, []⟩, ⟨.input 2, 4, []⟩, ⟨.node (.logic .NOT) .bool, 1, [some 0]⟩, ⟨.node .mux .bitvec, 4, [some 0, some 2, some 1]⟩] := by
+  have h := negMux_localSound (ok := exOk)
+    [⟨.input 0, 1, []⟩, ⟨.input 1, 4, []⟩, ⟨.input 2, 4, []⟩, ⟨.node (.logic .NOT) .bool, 1, [some 0]⟩] 3 0 1 2 4 .bitvec .bool rfl (by omega)
+    (fun env ⟨b, hb⟩ => ⟨b, by simp only [evalNet, evalNetFrom, evalNetNode, List.nil_append, List.getD_cons_zero, List.cons_append]; rw [hb]⟩)
+  exact Rewrites.step (post := []) (Rewrites.refl exNet) h
+
+/-- the admissibility predicate is satisfiable (also by a partially undefined stimulus) -/
+example : exOk [[B4.x], BV4.ofNat 4 5, BV4.ofNat 4 9] := ⟨B4.x, rfl⟩
 
 end Gatery.C01.Props
